@@ -280,7 +280,7 @@ var variants = []variant{
 
 // the seven states of the property text, plus the one the calibration showed to
 // matter: a stream "opened" by a HEADERS block the server rejected as malformed
-var states = []string{"idle", "open", "half-closed-remote", "closed-end-stream", "closed-client-rst", "closed-server-rst", "reset-in-flight", "rejected-malformed-headers"}
+var states = []string{"idle", "open", "half-closed-remote", "half-closed-remote-short-body", "half-closed-remote-short-body-trailers", "closed-end-stream", "closed-client-rst", "closed-server-rst", "reset-in-flight", "rejected-malformed-headers"}
 
 func barrier() []byte { return h2peer.RawFrame(0xbb, 0, 0, []byte("barrier")) }
 
@@ -320,6 +320,12 @@ func runCell(limit uint32, state string, vr variant, others int, st *stats) *con
 			c.exec(frameStep("open", postOpen(T, 5, "")))
 		case "half-closed-remote":
 			c.exec(frameStep("open+end-stream", getES(T)))
+		case "half-closed-remote-short-body": // END_STREAM before the declared content-length: tolerated or a stream error
+			c.exec(frameStep("open", postOpen(T, 5, "")))
+			c.exec(frameStep("short-body-end-stream", h2peer.RawFrame(0, fES, T, []byte("ab"))))
+		case "half-closed-remote-short-body-trailers":
+			c.exec(frameStep("open", postOpen(T, 5, "")))
+			c.exec(frameStep("short-body-trailers", h2peer.RawFrame(1, fES|fEH, T, block([]hpack.HeaderField{hf("x-trailer", "t")}))))
 		case "closed-end-stream":
 			c.exec(frameStep("open+end-stream", getES(T)))
 			c.exec(Step{Op: "release", SID: T})
@@ -558,9 +564,9 @@ func (g *gen) step() (Step, bool) {
 				rem := int(s.ContentLength - s.BodyBytes)
 				if n >= rem {
 					n, end = rem, true
-				} else if end {
+				} else if end && (g.legal || r.Intn(3) != 0) {
 					n = rem
-				}
+				} // else: END_STREAM before content-length octets (malformed; the server may tolerate it)
 			}
 			pad := -1
 			if r.Intn(3) == 0 {
@@ -591,7 +597,7 @@ func (g *gen) step() (Step, bool) {
 			if !ok {
 				continue
 			}
-			if s := ref.Streams[sid]; s.ContentLength >= 0 && s.BodyBytes != s.ContentLength {
+			if s := ref.Streams[sid]; s.ContentLength >= 0 && s.BodyBytes != s.ContentLength && (g.legal || r.Intn(3) != 0) {
 				continue
 			}
 			b := block([]hpack.HeaderField{hf("x-trailer", "t"), hf("x-checksum", "0")})
